@@ -162,12 +162,16 @@ CHECKS["C09"] = dict(
     level="model_checking",
     claim="Range part: for every seed of 1..3 bytes and every value math/rand may return by contract, dice(n) is in [1,n] and errs exactly for "
           "n < 1, random_range(a,b) is in [a,b] for every representable non-empty range and errs on empty ones, random() is in [0,1) "
-          "(64-bit integer obligations on the functions the built-in table registers). Determinism part: two runners from the same state and "
-          "seed with independent environment nondeterminism agree (see instances).",
+          "(integer obligations on the results recovered exactly from the real table and bridge). Determinism part (relational): two function "
+          "tables built from the same 1..2-byte seed and driven with the same 1..2 calls of dice/random_range/random (32-bit symbolic arguments) "
+          "return equal results and errors, with an unrelated third generator used in between, independent environment answers (global rand "
+          "source, clock) per copy and a solver-chosen iteration order of the registration map.",
     note="The bit-for-bit stream of math/rand for a seed is the stdlib's contract (uninterpreted function of seed, call index and bound).",
     instances=dict(
-        quick=[inst("root", "VHRandomContracts", solver="z3", workers=8, must_reach=["dice", "random_range", "random"])],
-        thorough=[inst("root", "VHRandomContracts", solver="z3", workers=8, must_reach=["dice", "random_range", "random"])]),
+        quick=[inst("root", "VHRandomContracts", solver="z3", workers=8, must_reach=["dice", "random_range", "random"]),
+               inst("root", "VHDeterminism", {"CALLS": 1}, solver="z3", workers=8, maporder="symbolic", must_reach=["compared"])],
+        thorough=[inst("root", "VHRandomContracts", solver="z3", workers=8, must_reach=["dice", "random_range", "random"]),
+                  inst("root", "VHDeterminism", {"CALLS": 2}, solver="z3", workers=16, maporder="symbolic", must_reach=["compared"])]),
     assumptions=["seed strings of 1..3 arbitrary bytes"],
 )
 
